@@ -465,6 +465,19 @@ class IoSim(Engine):
 
                     def getter():
                         return bytes(sf.data).decode('utf-8', 'replace')
+                elif kind == 'textio_latin1':
+                    # an open text stream with a legacy 8-bit encoding (a console, a file
+                    # opened with a code page): same text as long as it is encodable
+                    sink, sf = simio.raw_sink(rawplan, st_, knobs, encoding='latin-1')
+
+                    def closer():
+                        sink.close()
+
+                    def getter():
+                        return bytes(sf.data).decode('latin-1')
+                elif kind == 'duck_console':
+                    sink = simio.DuckSinkConsole(st_, fail_at)
+                    getter = sink.content
                 elif kind == 'realfile':
                     rp = os.path.join(mount.dir, '..', os.path.basename(mount.dir) + '.real.out')
                     sink = simio._real_open(rp, 'w', encoding='utf-8')
@@ -540,7 +553,17 @@ class IoSim(Engine):
                              'value': plan['value']}))
 
             # fault-free configuration
-            for kind in ('strpath', 'path', 'stringio', 'duck', 'duck_flush', 'realfile'):
+            kinds = ['strpath', 'path', 'stringio', 'duck', 'duck_flush', 'realfile', 'duck_console']
+            latin1_ok = False
+            if T is not None:
+                try:
+                    T.encode('latin-1')
+                    latin1_ok = True
+                except UnicodeEncodeError:
+                    pass
+            if latin1_ok:
+                kinds.append('textio_latin1')
+            for kind in kinds:
                 out = run(kind)
                 check(kind, out, 'whole')
                 if kind in ('strpath', 'path') and not out['io'].opened and out['status'] == 'ok':
